@@ -7,6 +7,7 @@
 (*           getcallargs / call_with_callargs through W(f)                                        *)
 (*   "hist"  a whole session on one counting base function: wrap events (with the projected      *)
 (*           chains of ALL live wrapper objects afterwards) interleaved with calls on any object *)
+(*           and with the caller mutating in place what a call returned to it (op "mutate")       *)
 (*   "memo"  a call sequence on cache(f) for a counting f, keys of any kind (also unhashable)    *)
 (* Verdict folds the events of a history over the abstract state with the operators of           *)
 (* Decorators.tla and returns "" or the name of the first clause the observation breaks.         *)
@@ -30,7 +31,8 @@ LayerClauses(sig, cc, ws, i) ==          \* ws[i] = [layer, out, argspec, gca, c
 BindVerdict(o) ==
     LET sig == o.sig  cc == o.cc IN
     IF ~WellFormed(sig) THEN "spec_bad_signature"
-    ELSE IF o.argspec # ArgSpec(sig) THEN "spec_signature_vs_python"
+    ELSE IF o.argspec # ArgSpec(sig) THEN "spec_signature_vs_python"         \* inspect.getfullargspec(f)
+    ELSE IF o.pyg_argspec # ArgSpec(sig) THEN "same_signature"                \* pyg_base.getargspec(f)
     ELSE IF ~Valid(sig, cc) THEN (IF o.inspect # Raises("TypeError") THEN "spec_validity_vs_python" ELSE LayerClauses(sig, cc, o.layers, 1))
     ELSE IF o.inspect # Bind(sig, cc) THEN "spec_binding_vs_python"
     ELSE IF o.self # BaseOutcome(sig, cc) THEN "spec_base_function"
@@ -55,38 +57,48 @@ WrapClause(sig, st, e) ==
 CallClause(sig, st, e) ==
     LET chain == IF e.obj = 0 THEN <<>> ELSE st.heap[e.obj]
         cc    == e.cc
+        eff   == Effective(sig, chain, cc)
         want  == LawOutcome(sig, chain, cc)
-        raises == IsExc(BaseOutcome(sig, Effective(sig, chain, cc)))
+        raises == IsExc(BaseOutcome(sig, eff))
         cached == HasCls(chain, "cache")
+        direct == cached /\ chain[Len(chain)][1] = "cache"       \* the cache wraps the base function itself
         prev   == SeenIdx(st.seen, e.obj, cc)
         \* Named deviation SharedMemo: wrappers built from a cached function may share its memo, so the
         \* first call of a key on one object may return what another cached object evaluated earlier.
         othercache == \E j \in 1..Len(st.heap) : j # e.obj /\ HasCls(st.heap[j], "cache")
+        \* the number of the evaluation a result carries (a None result carries none: only the counter tells)
+        pair  == IsPair(e.out)
+        n     == IF pair THEN e.out[2][2][2] ELSE e.evals
     IN
     IF e.obj > Len(st.heap) \/ ~ValidFor(sig, chain, cc) THEN "spec_invalid_call"
     ELSE IF e.heap # st.heap THEN "call_changed_an_object"
     ELSE IF e.evals < st.nev THEN "spec_counter"
     ELSE IF want = Unspecified THEN ""
     ELSE IF raises THEN (IF e.out = want THEN "" ELSE IF TryIdx(chain) # {} THEN "fallback_iff_raises" ELSE "transparent_call")
-    ELSE IF ~IsPair(e.out) \/ e.out[2][1] # want THEN "transparent_call"
-    ELSE LET n == e.out[2][2][2] IN
-         IF ~cached THEN (IF st.nev < n /\ n <= e.evals THEN "" ELSE "evaluates_f")
+    ELSE IF HasQuiet(eff) /\ e.out # None THEN "transparent_call"
+    ELSE IF ~HasQuiet(eff) /\ (~pair \/ e.out[2][1] # want) THEN "transparent_call"
+    ELSE IF ~cached THEN (IF st.nev < n /\ n <= e.evals THEN "" ELSE "evaluates_f")
          ELSE IF prev # {} THEN (IF e.out = st.seen[Min(prev)][3] /\ e.evals = st.nev THEN "" ELSE "memo_first_result")
          \* "exactly once" is said of the function the cache wraps: pinned when that is the base function itself
          ELSE IF n = st.nev + 1 /\ e.evals = n THEN ""
-         ELSE IF chain[Len(chain)][1] # "cache" /\ st.nev < n /\ n <= e.evals THEN ""
-         ELSE IF othercache /\ n <= st.nev /\ e.evals = st.nev THEN ""
+         ELSE IF ~direct /\ st.nev < n /\ n <= e.evals THEN ""
+         ELSE IF othercache /\ (pair => n <= st.nev) /\ e.evals = st.nev THEN ""
          ELSE "memo_evaluates_once"
+\* op "mutate": the caller changed, in place, the object the previous call returned to it.  That is not an
+\* action of the session: nothing changes, and later calls are judged exactly as before.
 HistNext(sig, st, e) ==
     IF e.op = "wrap" THEN [st EXCEPT !.heap = WrapObjs(@, e.layer, e.target), !.nev = e.evals]
-    ELSE LET chain == IF e.obj = 0 THEN <<>> ELSE st.heap[e.obj] IN
+    ELSE IF e.op = "mutate" THEN st
+    ELSE LET chain == IF e.obj = 0 THEN <<>> ELSE st.heap[e.obj]
+             normal == ~IsExc(BaseOutcome(sig, Effective(sig, chain, e.cc))) IN
          [st EXCEPT !.nev = e.evals,
-                    !.seen = IF HasCls(chain, "cache") /\ IsPair(e.out) /\ SeenIdx(@, e.obj, e.cc) = {}
+                    !.seen = IF HasCls(chain, "cache") /\ normal /\ SeenIdx(@, e.obj, e.cc) = {}
                              THEN Append(@, <<e.obj, e.cc, e.out>>) ELSE @]
 RECURSIVE HistFold(_, _, _, _)
 HistFold(sig, es, i, st) ==
     IF i > Len(es) THEN ""
-    ELSE LET v == IF es[i].op = "wrap" THEN WrapClause(sig, st, es[i]) ELSE CallClause(sig, st, es[i]) IN
+    ELSE LET v == IF es[i].op = "wrap" THEN WrapClause(sig, st, es[i])
+                  ELSE IF es[i].op = "mutate" THEN "" ELSE CallClause(sig, st, es[i]) IN
          IF v # "" THEN v \o "@" \o ToString(i) ELSE HistFold(sig, es, i + 1, HistNext(sig, st, es[i]))
 HistVerdict(o) == IF ~WellFormed(o.sig) THEN "spec_bad_signature"
                   ELSE HistFold(o.sig, o.events, 1, [heap |-> <<>>, nev |-> 0, seen |-> <<>>])
@@ -96,15 +108,17 @@ HistVerdict(o) == IF ~WellFormed(o.sig) THEN "spec_bad_signature"
 RECURSIVE MemoFold(_, _, _, _, _)
 MemoFold(sig, es, i, m, ev) ==
     IF i > Len(es) THEN ""
-    ELSE LET e == es[i]  cc == e.cc  r == MemoCall(m, ev, sig, cc) IN
+    ELSE LET e == es[i]  cc == e.cc  r == MemoCall(m, ev, sig, cc)
+             at == "@" \o ToString(i)
+             shape == IF HasQuiet(cc) THEN e.out = None ELSE IsPair(e.out) /\ e.out[2][1] = Bind(sig, cc) IN
          IF ~Valid(sig, cc) THEN "spec_invalid_call"
          ELSE IF HasBad(cc) THEN (IF e.out = Raises("ValueError") /\ e.evals > ev THEN MemoFold(sig, es, i + 1, m, e.evals)
-                                  ELSE "transparent_call" \o "@" \o ToString(i))
-         ELSE IF ~IsPair(e.out) \/ e.out[2][1] # Bind(sig, cc) THEN "transparent_call" \o "@" \o ToString(i)
+                                  ELSE "transparent_call" \o at)
+         ELSE IF ~shape THEN "transparent_call" \o at
          ELSE IF e.out = r.out /\ e.evals = r.evals THEN MemoFold(sig, es, i + 1, r.memo, r.evals)
          \* Uncached: an unhashable key met again may be evaluated again (its first result stays in the memo)
          ELSE IF UnhashableCall(cc) /\ e.evals = ev + 1 /\ e.out = Result(sig, cc, ev + 1) THEN MemoFold(sig, es, i + 1, m, ev + 1)
-         ELSE (IF MemoIdx(m, cc) # {} THEN "memo_first_result" ELSE "memo_evaluates_once") \o "@" \o ToString(i)
+         ELSE (IF MemoIdx(m, cc) # {} THEN "memo_first_result" ELSE "memo_evaluates_once") \o at
 MemoVerdict(o) == IF ~WellFormed(o.sig) THEN "spec_bad_signature" ELSE MemoFold(o.sig, o.events, 1, <<>>, 0)
 
 Verdict(o) == CASE o.part = "bind" -> BindVerdict(o)
@@ -112,6 +126,6 @@ Verdict(o) == CASE o.part = "bind" -> BindVerdict(o)
                 [] o.part = "memo" -> MemoVerdict(o)
                 [] OTHER -> "spec_unknown_part"
 
-Init == BatchInit /\ SessionInit([npos |-> 0, ndef |-> 0, varargs |-> FALSE, varkw |-> FALSE])
+Init == BatchInit /\ SessionInit([npos |-> 0, ndef |-> 0, varargs |-> FALSE, varkw |-> FALSE, alt |-> FALSE])
 Next == BatchNext(Verdict) /\ UNCHANGED vars
 =============================================================================
